@@ -20,22 +20,32 @@ class Check(PropertyCheck):
     prop = "C25"
     design_ref = "§5 C25"
     level_text = ("Lean theorems about the executable model of domain_names.pack/unpack_from_with_compression (with its "
-                  "offset cache)/expand_record_data and DNSMessage.packed/unpack: `roundtrip` (every well-formed message - "
-                  "full field ranges, IDNA-canonical names, arbitrary record data that holds no compression pointer in a "
-                  "name field of its type - decodes back to itself, for every idna codec), `unpack_total` + "
-                  "`pointer_loop_is_error` + `pointer_chase_measure` (decoding is a total function: the two pointer-chasing "
-                  "loops are well-founded on the number of unvisited buffer offsets, no fuel), `reencode_stable_partial` "
-                  "(a decoded message re-encodes and decodes to itself unless a record's data did not match the layout of "
-                  "its type) with `reencode_stable_counterexample` for the recorded residual finding F-C25a, and "
-                  "`opaque_types_bytewise`. Model tied to the code differentially on messages, byte strings, single "
-                  "names at arbitrary offsets (all pointer graphs on <=3/4 name slots) and record data expansion.")
-    level_note = ("trusted: Lean kernel; hand-written model tied by the differential run (pack, unpack, re-encode, name and "
-                  "rdata level). Python's idna codec is a parameter of the model (no law assumed); in the driver it is a "
-                  "table recorded from the real codec for the labels of each case (a reply that depends on a missing entry "
-                  "is reported as idna-miss). reencode_stable is proved only as `_partial`: records of a name-bearing type "
-                  "whose data does not match the type's layout keep the heuristic pointer expansion that "
-                  "test_dns.py::test_packing pins, and are not stable under re-encoding (F-C25a, counter-example proved). "
-                  "Seven defects were repaired by fix: commits in /repo (see known/C25.json).")
+                  "offset cache and nesting limit)/expand_record_data and DNSMessage.packed/unpack. `roundtrip`: every "
+                  "well-formed message (full field ranges, IDNA-canonical names, arbitrary record data that holds no "
+                  "compression pointer in a name field of its type) decodes back to itself, for every idna codec; "
+                  "`roundtrip_ascii` + `canon_of_ascii`: for names made of ASCII labels (the codec's ASCII fast path is "
+                  "transcribed in the model) the round trip holds outright, with a codec-free decidable well-formedness "
+                  "predicate - only non-ASCII / xn-- labels remain relative to the codec parameter. Totality: "
+                  "`unpack_total`, `pointer_chase_measure` (both pointer-chasing loops are well-founded on the number of "
+                  "unvisited offsets, no fuel), and for EVERY byte string `pointer_cycle_is_error` / "
+                  "`expand_cycle_is_error` (any compression-pointer cycle, with or without labels, reached from an owner/"
+                  "question name or from a name inside record data is a parse error; `cache_stays_sound` shows the cache "
+                  "invariant holds throughout a decode), plus `pointer_loop_is_error`, `expand_loop_is_error`. "
+                  "`reencode_stable_partial` (a decoded message re-encodes and decodes to itself unless a record's data "
+                  "did not match the layout of its type) with `reencode_stable_counterexample` for finding F-C25a; "
+                  "`opaque_types_bytewise`. Tie: the model PREDICTS decode -> re-encode -> decode from the input bytes "
+                  "alone (driver op chain) and encode -> decode from a constructed message (op rt); names at arbitrary "
+                  "offsets (all pointer graphs on <=2/3 slots), record-data expansion windows, pointer-only cycles inside "
+                  "record data of every name-bearing type, and the Lean rdataPlain predicate against its Python twin.")
+    level_note = ("trusted: Lean kernel; hand-written model tied by the differential run. Python's idna codec is a parameter "
+                  "of the model only for labels containing xn-- (decode) and non-ASCII text (encode); no law about it is "
+                  "assumed; in the driver it is a table recorded from the real codec per case (a reply that depends on a "
+                  "missing entry is reported as idna-miss). reencode_stable is proved only as `_partial`: records of a "
+                  "name-bearing type whose data does not match the type's layout keep the heuristic pointer expansion that "
+                  "test_dns.py::test_packing pins and are not stable under re-encoding (F-C25a, counter-example proved). "
+                  "DNSMessage.packed does not compress, so there is no theorem about pointers written by the packer; what a "
+                  "compressing sender may write and how the decoder reads it is C26 (`compressed_name_read`). "
+                  "Defects repaired by fix: commits in /repo are listed in known/C25.json.")
     technique = "Lean 4 proof (well-founded pointer chasing, parse-of-serialise induction) + differential model-vs-code correspondence"
     rule = ("msg cases: DNSMessage objects over full field ranges (incl. out-of-range values) with names from ASCII/ACE/"
             "Unicode/odd label pools and record data from {type-appropriate, random, >=0xC0 dense}; bytes cases: messages "
@@ -429,23 +439,18 @@ class Check(PropertyCheck):
         op = case["op"]
         if any(str(v).startswith("exc:") for v in obs.values()): return None
         if op == "msg":
+            # the model encodes the message and decodes ITS OWN bytes; only the idna table is taken from the real codec
             bufs = [unhx(obs["packed"])] if obs["packed"] != "err" else []
             tbl = D.idna_table(bufs, list(self._names(obs["msg"])))
-            lines = [f"pack {tbl} {D.render_case_msg(case)}"]
-            if bufs: lines.append(f"unpack {tbl} {obs['packed']}")
-            return lines
+            return [f"rt {tbl} {D.render_case_msg(case)}"]
         if op == "bytes":
+            # decode, re-encode, decode again: all three predicted by the model from the input bytes alone
             bufs = [unhx(case["buf_hex"])]
             names = []
             if obs["r"] != "err":
                 names = list(self._names(obs["r"][3:]))
                 if obs["packed"] != "err": bufs.append(unhx(obs["packed"]))
-            tbl = D.idna_table(bufs, names)
-            lines = [f"unpack {tbl} {case['buf_hex']}"]
-            if obs["r"] != "err":
-                lines.append(f"pack {tbl} {obs['r'][3:]}")
-                if obs["packed"] != "err": lines.append(f"unpack {tbl} {obs['packed']}")
-            return lines
+            return [f"chain {D.idna_table(bufs, names)} {case['buf_hex']}"]
         if op == "plain":
             return [f"plain {case['ty']} {case['data_hex']}"]
         if op == "name":
@@ -459,12 +464,12 @@ class Check(PropertyCheck):
         if any(str(v).startswith("exc:") for v in obs.values()): return ["exc"]
         ok = lambda v: "err" if v == "err" else "ok " + v
         if case["op"] == "msg":
-            return [ok(obs["packed"])] + ([obs["back"]] if "back" in obs else [])
+            return [" | ".join([ok(obs["packed"])] + ([obs["back"]] if "back" in obs else []))]
         if case["op"] == "bytes":
             out = [obs["r"]]
             if "packed" in obs: out.append(ok(obs["packed"]))
             if "back" in obs: out.append(obs["back"])
-            return out
+            return [" | ".join(out)]
         return [obs["r"]]
 
     # ------------------------------------------------------------------ evidence
